@@ -2,6 +2,7 @@ package main
 
 import (
 	"flag"
+	"path/filepath"
 	"fmt"
 	"os"
 	"runtime/debug"
@@ -59,7 +60,19 @@ func main() {
 				code = 2
 			}
 		}()
+		if os.Getenv("VERIF_NO_NORMALISE") == "" {
+			baselinePath = os.Getenv("VERIF_BASELINE")
+			if baselinePath == "" {
+				if exe, err := os.Executable(); err == nil {
+					baselinePath = filepath.Join(filepath.Dir(filepath.Dir(exe)), "baseline_funcs.json")
+				}
+			}
+		}
 		p = loadProg(*repo, *overlay)
+		if *prop == "INFER-BASELINE" {
+			writeBaseline(p, *verif)
+			os.Exit(0)
+		}
 	}()
 	if code != 0 {
 		os.Exit(code)
@@ -88,6 +101,6 @@ func runProp(id string, p *Prog, tier string, seed int, verif string, loadS floa
 		}
 	}()
 	props[id](r, tier)
-	li := map[string]interface{}{"bleve_packages": len(p.Pkgs), "all_packages": len(p.All), "source_functions": len(p.flist), "load_s": loadS, "ssa_built": p.ssaProg != nil}
+	li := map[string]interface{}{"bleve_packages": len(p.Pkgs), "all_packages": len(p.All), "source_functions": len(p.flist), "load_s": loadS, "ssa_built": p.ssaProg != nil, "normalisation": normaliseLog}
 	return r.finish(tier, seed, start, verif, li)
 }
